@@ -107,6 +107,51 @@ def run(ctx, R, tier):
               {unparse(n.left), unparse(n.comparators[0])} == {"self._pyroUri", "%s._pyroUri" % pe.params[1]} for n in walk_no_nested(pe.node))
     R.check(okh and oke, "C19-R1", "Proxy|eq-hash-from-uri", "proxies compare and hash by their URI", ph.loc(), "Proxy.__eq__/__hash__ no longer derive from the proxy's URI")
 
+    # the state tuple is what __eq__, __hash__ and __setstate__ work on: the one helper that puts a pyro object (URI, Proxy, Daemon) on the wire hands it over as
+    # __getstate__ returned it. A helper that "normalises" it (sorts the tag set of a PYROMETA uri into a list, converts elements) delivers a URI that is unequal to the
+    # one that was sent on the serializers that carry the original types
+    spo = ctx.fn("Pyro5.serializers.serialize_pyro_object_to_dict")
+    rets = [n for n in walk_no_nested(spo.node) if isinstance(n, ast.Return)]
+    state_v = None
+    if len(rets) == 1 and isinstance(rets[0].value, ast.Dict):
+        for k, v in zip(rets[0].value.keys, rets[0].value.values):
+            if isinstance(k, ast.Constant) and k.value == "state":
+                state_v = v
+    if state_v is None:
+        raise AnalysisError("serialize_pyro_object_to_dict no longer returns a dict display with a 'state' entry")
+    if isinstance(state_v, ast.Name):
+        defs = [st.value for st, t, k in stores_in(spo.node) if isinstance(t, ast.Name) and t.id == state_v.id and k == "assign"]
+        if len(defs) == 1:
+            state_v = defs[0]
+    R.check(unparse(state_v) == "%s.__getstate__()" % spo.params[0], "C19-R1", "wire|state-travels-as-__getstate__-returned-it", "the class-to-dict helper of URI/Proxy/Daemon ships obj.__getstate__() unchanged",
+            spo.loc(rets[0]), "the 'state' entry is `%s`: what __setstate__ receives is not what __getstate__ produced - e.g. the tag set of a PYROMETA uri arrives as a sorted list, "
+            "and the received URI is unequal to the sent one (and `uri.object & tags` fails) on serializers that do carry sets" % unparse(state_v, 90))
+
+    # the broadcast answer of the name server is its URI as text in a datagram: the responder's codec must be the one locate_ns decodes with, or every character
+    # outside ASCII in the location (unix socket path, object name) arrives as different characters and the located name server is another uri
+    bs = ctx.fn("Pyro5.nameserver.BroadcastServer.processRequest")
+    lns = ctx.fn("Pyro5.core.locate_ns")
+    import codecs
+
+    def codec_of(c, default):
+        a = c.args[0] if c.args else next((k.value for k in c.keywords if k.arg == "encoding"), None)
+        if a is None:
+            return default
+        if isinstance(a, ast.Constant) and isinstance(a.value, str):
+            try:
+                return codecs.lookup(a.value).name
+            except LookupError:
+                return "?" + a.value
+        return "?" + unparse(a, 40)
+    enc = {codec_of(c, "utf-8") for c in walk_no_nested(bs.node) if isinstance(c, ast.Call) and isinstance(c.func, ast.Attribute) and c.func.attr == "encode"}
+    dec = {codec_of(c, "utf-8") for c in walk_no_nested(lns.node) if isinstance(c, ast.Call) and isinstance(c.func, ast.Attribute) and c.func.attr == "decode"
+           and isinstance(c.func.value, ast.Name) and c.func.value.id == "data"}
+    if not enc or not dec:
+        raise AnalysisError("broadcast lookup: the encode in BroadcastServer.processRequest or the decode of `data` in locate_ns vanished")
+    R.check(len(enc) == 1 and enc == dec, "C19-R5", "broadcast|responder-and-locator-use-one-codec", "the uri text is encoded by the broadcast responder with the codec locate_ns decodes it with (%s)" % sorted(enc),
+            bs.loc(), "the broadcast responder encodes the name server uri as %s, locate_ns decodes the datagram as %s: a location with a non-ASCII character designates another "
+            "socket/host at the client than the one the name server listens on" % (sorted(enc), sorted(dec)))
+
     # ---------------------------------------------------------------- R2
     for fld in fields:
         bad = []
@@ -171,6 +216,21 @@ def run(ctx, R, tier):
             "`%s` rewrites a field while printing and the parser does not reverse it: the printed URI parses to a different URI" % (unparse(tr[0]) if tr else ""))
     ints = [n for n in walk_no_nested(pl.node) if isinstance(n, ast.Call) and isinstance(n.func, ast.Name) and n.func.id == "int" and "port" in unparse(n)]
     R.check(bool(ints), "C19-R3", "integer-port", "the port is converted with int() by the parser", pl.loc(), "the parser no longer converts the port with int()")
+
+    # ... and the parser takes the object part as it stands in the text: the printer writes self.object raw, so a parser that decodes, unquotes, strips or case-folds
+    # it makes str(URI(s)) parse to a different object the second time (and the daemon's registry, keyed by the raw id, is asked for another id than the one in the uri)
+    ui = ctx.fn("Pyro5.core.URI.__init__")
+    ost = [st for st, t, k in stores_in(ui.node) if k == "assign" and isinstance(t, ast.Attribute) and t.attr == "object" and isinstance(t.value, ast.Name) and t.value.id == ui.params[0]]
+    if not ost:
+        raise AnalysisError("URI.__init__: no store of self.object")
+
+    def _raw_group(v):
+        return isinstance(v, ast.Call) and isinstance(v.func, ast.Attribute) and v.func.attr == "group" and len(v.args) == 1 and isinstance(v.args[0], ast.Constant) \
+            and v.args[0].value == "object"
+    badp = [st for st in ost if not (_raw_group(st.value) or (isinstance(st.value, ast.Call) and isinstance(st.value.func, ast.Name) and st.value.func.id in ("set", "frozenset")))]
+    R.check(not badp, "C19-R3", "parser|object-part-taken-verbatim", "URI.__init__ stores the object part exactly as the regex matched it (the PYROMETA tag set aside)", ui.loc(badp[0]) if badp else ui.loc(),
+            "`%s`: the object part is rewritten while parsing but printed raw - the text form of such a uri parses to a different object, and the id a daemon is asked for "
+            "differs from the id it registered" % (unparse(badp[0], 80) if badp else ""))
 
     # ---------------------------------------------------------------- R4
     truthy_used = set()
@@ -273,3 +333,18 @@ def run(ctx, R, tier):
             % (unparse(remembered[0]) if remembered else ""))
     from .common import sql_setitem_writes_uri
     sql_setitem_writes_uri(ctx, R, "C19-R5")
+
+    # the name server keeps the uri as text under the name: an operation that rewrites an entry (set_metadata) reads the text and writes it back under ONE lock hold
+    # (shared with C15-R1) - read and written back under two, a re-registration in between is undone and every later lookup designates the replaced location
+    from ..report import Rules as _Rules
+    from ..report import run_shared as _run_shared
+    from . import c15 as _c15
+    R15 = _Rules("C15")
+    try:
+        _run_shared(ctx, _c15, R15, tier)
+    except AnalysisError as _shared_x:
+        R.note("obligations shared from C15 are incomplete on this tree: %s" % _shared_x)
+    for o in R15.obs:
+        if o.key == "C15-R1|NameServer.set_metadata|compound-under-one-lock":
+            R.add("C19-R5", "NameServer.set_metadata|uri-written-back-under-the-lock-it-was-read", o.desc + " (the stored uri text of a name is never replaced by a stale copy of itself)",
+                  o.ok, o.loc, o.detail)
